@@ -344,6 +344,10 @@ class Walker:
     def _s_Assert(self, s, cur):
         ok = self._cond(s.test, True, cur)
         bad = self._cond_false_only(s.test, cur)
+        for evs, _out in ok + bad:
+            for ev in evs:
+                if ev.k == "assume":
+                    ev.b = "assert"  # a declared invariant, not a guard that selects behaviour
         origin = ("assert", self.f.qual, s.lineno)
         bad = self._seq(bad, lambda: [([Ev("raise", s, "AssertionError", origin)], ("raise", "AssertionError", s, origin))])
         return ok + bad
